@@ -561,6 +561,22 @@ impl Sess {
             ["dump"] => self.dump(),
             // --- slice c11p: several processes, several calls of `open` each
             ["lk", "reset"] => { self.lk_kill_all(); "ok".to_string() }
+            // slice c11sys: one request to process p (a full worker with its own handle)
+            ["at", p, "die"] => {
+                let p: usize = p.parse().unwrap();
+                if let Some(Some((mut c, i, o))) = self.lk_procs.get_mut(p).map(|x| x.take()) { let _ = c.kill(); let _ = c.wait(); drop(i); drop(o); }
+                "ok".to_string()
+            }
+            ["at", p, rest @ ..] => {
+                let before = if rest == ["open"] { Some(self.dump()) } else { None };
+                let r = self.lk_ask(p.parse().unwrap(), &rest.join(" ")).unwrap_or_else(|| "died".into());
+                if let Some(b) = before {
+                    if r.starts_with("err alreadyOpened") && self.dump() != b {
+                        self.out.oracle_fail(format!("C11: a refused open changed the directory: `{line}`"));
+                    }
+                }
+                r
+            }
             ["lk", "open", slot, p, mode] => {
                 let before = self.dump();
                 let r = self.lk_ask(p.parse().unwrap(), &format!("lk open {slot} {mode}")).unwrap_or_else(|| "died".into());
